@@ -270,6 +270,67 @@ async fn deliver(w: &mut World, t: &mut Trace, d: &Value, src: &str) {
         "listedBefore":listed_before,"listedAfter":listed_after,"contractCalls":w.stub.calls()-calls0,"unverified":unverified,"src":src}));
 }
 
+/// Two replicated deliveries for one address processed concurrently, in the prescribed interleaving.
+/// Token h = next section of handler h: first its read section (up to and including the serving of its
+/// GetLocalRecord command), then its write section (to completion).
+async fn concurrent(w: &mut World, t: &mut Trace, s: &Value) {
+    use ant_networking::verif_hooks::LocalSwarmCmd;
+    use std::task::Poll;
+    let fam = st(&s["family"], "pad");
+    // set-up: the address already holds version 1
+    let setup = match fam {
+        "pad" => json!({"path":"repl","kind":"Scratchpad","key":"derived","c":1,"sig":"ok","content":10}),
+        "txs" => json!({"path":"repl","kind":"Transaction","key":"derived","txs":[{"id":1}]}),
+        _ => json!({"path":"repl","kind":"Register","key":"derived","ops":[{"id":1}]}),
+    };
+    deliver(w, t, &setup, "conc-setup").await;
+    let ba = build(w, &s["a"]);
+    let bb = build(w, &s["b"]);
+    let derived = ba.derived.clone();
+    let node = w.n.node.clone();
+    let node2 = w.n.node.clone();
+    let mut fa = Box::pin(node.store_replicated_in_record(ba.record.clone()));
+    let mut fb = Box::pin(node2.store_replicated_in_record(bb.record.clone()));
+    let mut done = [false, false];
+    let mut reads = [false, false];
+    let mut res = [String::new(), String::new()];
+    let mut executed: Vec<String> = vec![];
+    for tok in s["schedule"].as_array().cloned().unwrap_or_default() {
+        let h = if tok.as_str() == Some("A") { 0 } else { 1 };
+        if done[h] { continue; }
+        let want_read = !reads[h];
+        let mut guard = 0;
+        loop {
+            guard += 1;
+            if guard > 2000 { break; }
+            let polled = if h == 0 { futures::poll!(&mut fa) } else { futures::poll!(&mut fb) };
+            if let Poll::Ready(r) = polled {
+                done[h] = true;
+                res[h] = match r { Ok(()) => "Ok".into(), Err(e) => err_name(&e) };
+            }
+            // let the command senders run, then serve this handler's commands one by one
+            let mut served_read = false;
+            for _ in 0..4 {
+                tokio::task::yield_now().await;
+                while let Some(cmd) = w.n.driver.verif_try_recv_local_cmd() {
+                    let is_read = matches!(cmd, LocalSwarmCmd::GetLocalRecord { .. });
+                    let _ = w.n.driver.verif_handle_local_cmd(cmd);
+                    if is_read { served_read = true; }
+                }
+            }
+            if done[h] { break; }
+            if want_read && served_read { reads[h] = true; break; }
+        }
+        executed.push(format!("{}{}", if h == 0 { "A" } else { "B" }, if want_read && !done[h] { ":read" } else { ":write" }));
+    }
+    // finish whatever is left (schedules always complete both) and settle the disk work
+    settle(&mut w.n).await;
+    let slot = 0;
+    let after = w.held(&derived, slot);
+    t.emit(json!({"ev":"Concurrent","family":fam,"a":s["a"],"b":s["b"],"schedule":s["schedule"],"executed":executed,
+        "resA":res[0],"resB":res[1],"doneA":done[0],"doneB":done[1],"after":abs(&after),"contentOK":content_ok(&after),"src":"tlc"}));
+}
+
 async fn run() {
     let out = arg("--out").expect("--out");
     let work = PathBuf::from(arg("--work").expect("--work"));
@@ -282,6 +343,10 @@ async fn run() {
             w.key_ids.clear();
             w.op_ids.clear();
             t.emit(json!({"ev":"Reset","run":w.run,"src":"tlc"}));
+            if scn.is_object() {
+                concurrent(&mut w, &mut t, &scn).await;
+                continue;
+            }
             for s in scn.as_array().expect("scenario array") {
                 deliver(&mut w, &mut t, s, "tlc").await;
             }
